@@ -3,6 +3,7 @@ package main
 import (
 	"fmt"
 	"go/ast"
+	"go/constant"
 	"go/token"
 	"sort"
 	"strings"
@@ -32,23 +33,16 @@ func checkC09(c *Ctx, r *Report) {
 			sites = append(sites, w.pos(fw.Site.Pos()))
 			// the data operand is the formatter's first result itself (through conversions only):
 			// no phi that could merge the raw rendering back in
-			var data ssa.Value = fw.Data
-			for {
-				switch v := data.(type) {
-				case *ssa.Convert:
-					data = v.X
-					continue
-				case *ssa.ChangeType:
-					data = v.X
-					continue
+			for _, data := range w.originValues(fw.Data) {
+				if k, isConst := data.(*ssa.Const); isConst && (k.IsNil() || (k.Value != nil && k.Value.Kind() == constant.String && constant.StringVal(k.Value) == "")) {
+					continue // the error path of a helper that returns (nil | "", err): never written (guarded above)
 				}
-				break
-			}
-			ex, ok := data.(*ssa.Extract)
-			if !ok || ex.Index != 0 {
-				viol = fmt.Sprintf("%s: the bytes written (%s) are not simply the first result of OptimizeImportsAndFormat (%T): e.g. a fallback to / a copy of the raw raymond.Render output after a formatter failure leaves a syntactically invalid file at the output path", w.pos(fw.Site.Pos()), fw.Via, data)
-			} else if cl, ok := ex.Tuple.(*ssa.Call); !ok || calleeName(cl) != oif {
-				viol = fmt.Sprintf("%s: the bytes written are not the result of OptimizeImportsAndFormat", w.pos(fw.Site.Pos()))
+				ex, ok := data.(*ssa.Extract)
+				if !ok || ex.Index != 0 {
+					viol = fmt.Sprintf("%s: the bytes written (%s) are not simply the first result of OptimizeImportsAndFormat (%T): e.g. a fallback to / a copy of the raw raymond.Render output after a formatter failure leaves a syntactically invalid file at the output path", w.pos(fw.Site.Pos()), fw.Via, data)
+				} else if cl, ok := ex.Tuple.(*ssa.Call); !ok || calleeName(cl) != oif {
+					viol = fmt.Sprintf("%s: the bytes written are not the result of OptimizeImportsAndFormat", w.pos(fw.Site.Pos()))
+				}
 			}
 			pa := fw.PathAtoms
 			if !pa.hasFieldNamed("OutputPath") || !pa.hasFieldNamed("RoutesConfig") {
@@ -61,7 +55,7 @@ func checkC09(c *Ctx, r *Report) {
 		if len(fws) != 1 {
 			viol = fmt.Sprintf("expected one file write in %s, found %d", gr, len(fws))
 			for _, fw := range fws {
-				if _, isEx := stripTrivial(fw.Data).(*ssa.Extract); !isEx {
+				if _, isEx := stripTrivial(fw.Data).(*ssa.Extract); !isEx && len(w.originValues(fw.Data)) > 0 {
 					viol = fmt.Sprintf("%s: %s writes %d files; the one at %s (%s) does not carry the formatter's output: an unformattable rendering still leaves a file at the output path", w.pos(fw.Site.Pos()), gr, len(fws), w.pos(fw.Site.Pos()), fw.Via)
 				}
 			}
@@ -319,17 +313,30 @@ func checkImportAliases(c *Ctx, r *Report) {
 	if hfi := w.fn("generator/routes.registerHandlebarsHelpers"); hfi != nil {
 		viol := "UnpackImportsMap does not emit `alias \"path\"` lines"
 		var s3 []string
-		ast.Inspect(hfi.Decl, func(n ast.Node) bool {
-			if cl, ok := n.(*ast.CallExpr); ok && calleeOfCall(hfi.Pkg.TypesInfo, cl) == "fmt.Sprintf" && len(cl.Args) == 3 {
-				if litString(cl.Args[0]) == "%s \"%s\"\n" {
+		for _, rf := range w.astRegion(hfi) {
+			rf := rf
+			ast.Inspect(rf.Decl, func(n ast.Node) bool {
+				cl, ok := n.(*ast.CallExpr)
+				if !ok || len(cl.Args) < 3 {
+					return true
+				}
+				if cn := calleeOfCall(rf.Pkg.TypesInfo, cl); cn != "fmt.Sprintf" && cn != "fmt.Fprintf" {
+					return true
+				}
+				na := len(cl.Args)
+				if litString(cl.Args[na-3]) == "%s \"%s\"\n" {
 					s3 = append(s3, w.pos(cl.Pos()))
-					if exprString(cl.Args[1]) == "alias" && exprString(cl.Args[2]) == "pkgPath" {
+					// first the alias (an element of the alias list looked up for the package),
+					// then the package path (the key that list was looked up with)
+					aliasAt := w.exprAtoms(rf, cl.Args[na-2])
+					pathAt := w.exprAtoms(rf, cl.Args[na-1])
+					if aliasAt.Ops["index"] && aliasAt.Ops["range"] && !pathAt.Ops["index"] {
 						viol = ""
 					}
 				}
-			}
-			return true
-		})
+				return true
+			})
+		}
 		r.add("C09.c", "fieldflow", "routes.UnpackImportsMap:format", "imports are emitted as `<alias> \"<package path>\"`", []string{hfi.Key}, s3, viol)
 	}
 }
